@@ -18,6 +18,7 @@ from sqlparse.utils import imt
 
 from sqllineage import SQLPARSE_DIALECT
 from sqllineage.core.models import Column, Schema, SubQuery, Table
+from sqllineage.exceptions import SQLLineageException
 from sqllineage.core.parser.sqlparse.utils import get_parameters, is_subquery
 from sqllineage.utils.entities import ColumnQualifierTuple
 from sqllineage.utils.helpers import escape_identifier_name
@@ -74,6 +75,11 @@ class SqlParseColumn(Column):
                 return Column(
                     alias,
                     source_columns=source_columns,
+                )
+            elif column.get_real_name() is None:
+                # an identifier without a name of its own, like the "b." of a dangling qualifier
+                raise SQLLineageException(
+                    f"Column without a name, please check potential syntax error for SQL: {column.value}"
                 )
             else:
                 # select column name directly without alias
